@@ -135,8 +135,9 @@ def qprod_case(draw):
     a = draw(operand(allow_exact=False, positive=True, array=False))
     b = draw(operand(positive=True, array=False))
     # 'to': a expressed in multiples of the (possibly uncertain) reference quantity b - the same quotient as a/b
-    op = draw(st.sampled_from(["*", "/", "to"] if same else ["*", "/"]))
-    if op == "to" and draw(st.booleans()):
+    # 'ctor': the alternative constructor Quantity(a, b) with the (possibly uncertain) quantity b as unit - the product a*b
+    op = draw(st.sampled_from(["*", "/", "to", "ctor"] if same else ["*", "/", "ctor"]))
+    if op in ("to", "ctor") and draw(st.booleans()):
         a = dict(a, e=None)
     return {"kind": "qprod", "op": op, "u": u, "v": w, "a": a, "b": b}
 
@@ -467,7 +468,26 @@ def check_qprod(case, v):
             return v.fail("first-order", f"{txt}: error {err!r} < first-order bound {bound!r} of the quotient")
         v.nt(True)
         return v.label("to_reference_quantity")
-    r = qa * qb if op == "*" else qa / qb
+    if op == "ctor":
+        r = Quantity(_mk(a), qb)
+        op = "*"
+        qa = Quantity(_mk(a))
+        Ba, ea = _np(a["x"]), (None if a["e"] is None else _err(a))
+        txt = f"Quantity({a['x']!r}+-{a['e']!r}, Quantity({b['x']!r}+-{b['e']!r},{tv!r}))"
+        v.label("quantity_as_unit")
+        if ea is None:
+            if eb is None:
+                return
+            err = r.abse()
+            if err is None:
+                return v.fail("error-lost", f"{txt}: result has no error")
+            ebase = _np(err) * R.factor_of_expression(r.units())
+            if not _eq(ebase, np.abs(Ba) * eb, 1e-10):
+                return v.fail("exact-factor", f"{txt}: base error {ebase!r}, expected |a|*eb = {np.abs(Ba) * eb!r}")
+            v.nt(True)
+            return
+    else:
+        r = qa * qb if op == "*" else qa / qb
     err = r.abse()
     if err is None:
         return v.fail("error-lost", f"{txt}: result has no error")
